@@ -136,6 +136,7 @@ type verifSrv struct {
 	s    *Server
 	sock *verifSock
 	id   krpc.ID
+	lean bool // generators fork on fewer alternatives (for entries whose subject is not the field values)
 }
 
 // verifStartServer runs the real NewServer (and with it the real serve loop) on a fake socket.
